@@ -138,4 +138,19 @@ def merge (terms : List Bytes) (level : HunkLevel) (sc : SameChange) : Option (L
 def tryMerge (terms : List Bytes) (level : HunkLevel) (sc : SameChange) : Option Bytes :=
   collectResolved (mergeInnerHunks terms level sc)
 
+/-! ### run-time checkable hypothesis of the identity theorem (`Props/C04.lean`) -/
+
+/-- In every hunk, equal inputs have equal slices (`SlicesRespectEquality`). -/
+def sreb (d : ContentDiff) : Bool :=
+  d.hunks.all fun hk =>
+    (List.range d.inputs.length).all fun i =>
+      (List.range d.inputs.length).all fun j =>
+        if d.inputs.getD i [] = d.inputs.getD j [] then decide (hk.2.getD i [] = hk.2.getD j []) else true
+
+/-- the hypothesis evaluated on the line diff that `merge_inner` computes for `terms` -/
+def lineDiffSre (terms : List Bytes) : Bool :=
+  match build (diffInputs terms) byLine with
+  | none => false
+  | some d => sreb d
+
 end JjModel.Files
